@@ -241,3 +241,119 @@ func (c *Ctx) maybeDump() {
 }
 
 var _ = token.ADD
+
+// splitEdges returns, for the If(s) matching g, the target blocks of the pass side and of the
+// fail side.
+func splitEdges(fn *ssa.Function, g Guard) (pass, fail []*ssa.BasicBlock) {
+	for _, b := range fn.Blocks {
+		if len(b.Instrs) == 0 {
+			continue
+		}
+		ifi, ok := b.Instrs[len(b.Instrs)-1].(*ssa.If)
+		if !ok {
+			continue
+		}
+		is, passTrue := g.Match(normCond(ifi.Cond), ifi)
+		if !is {
+			continue
+		}
+		if passTrue {
+			pass = append(pass, b.Succs[0])
+			fail = append(fail, b.Succs[1])
+		} else {
+			pass = append(pass, b.Succs[1])
+			fail = append(fail, b.Succs[0])
+		}
+	}
+	return
+}
+
+// requireAfter: starting from the given blocks (e.g. the arm of a case split), every path to a
+// sink crosses a pass edge of each guard.
+func (c *Ctx) requireAfter(rule string, fn *ssa.Function, caseName string, starts []*ssa.BasicBlock, sinks []Sink, sinkName string, guards ...Guard) {
+	if len(starts) == 0 {
+		c.Unknown(rule, fnName(fn)+":"+caseName, "case split not found: cannot decide")
+		return
+	}
+	for _, g := range guards {
+		edges, n := passEdges(fn, g)
+		ok := true
+		for _, st := range starts {
+			prev := reachable(st, edges)
+			for i, s := range sinks {
+				if _, r := prev[s.Instr.Block()]; r {
+					ok = false
+					c.Bad(rule, fmt.Sprintf("%s:[%s]%s#%d<-%s", fnName(fn), caseName, sinkName, i, g.Name), c.instrPos(s.Instr),
+						fmt.Sprintf("in case %q, %s is reachable without passing the test %q (%d matching tests found)", caseName, sinkName, g.Name, n), c.blockPath(prev, s.Instr.Block())...)
+				}
+			}
+		}
+		if ok {
+			if n == 0 {
+				// sinks unreachable from the case arm at all: fine only if some sink exists elsewhere
+				c.OK(rule, fmt.Sprintf("%s:[%s]%s<-%s", fnName(fn), caseName, sinkName, g.Name), "case arm cannot reach the sink")
+				continue
+			}
+			c.OK(rule, fmt.Sprintf("%s:[%s]%s<-%s", fnName(fn), caseName, sinkName, g.Name), fmt.Sprintf("%d test(s)", n))
+		}
+	}
+}
+
+// callSinks: every call in fn matching cs, as sinks.
+func callSinks(fn *ssa.Function, desc string, cs CallSpec) []Sink {
+	var out []Sink
+	eachInstr(fn, func(in ssa.Instruction) {
+		if ci, ok := in.(ssa.CallInstruction); ok && cs.matches(ci) {
+			out = append(out, Sink{Instr: in, Desc: desc})
+		}
+	})
+	return out
+}
+
+// requireDominatingTest: some If matching g dominates every sink (both outcomes allowed): the
+// case split is decided on every path.
+func (c *Ctx) requireDominatingTest(rule string, fn *ssa.Function, sinks []Sink, sinkName string, g Guard) {
+	var tests []*ssa.BasicBlock
+	for _, b := range fn.Blocks {
+		if len(b.Instrs) == 0 {
+			continue
+		}
+		if ifi, ok := b.Instrs[len(b.Instrs)-1].(*ssa.If); ok {
+			if is, _ := g.Match(normCond(ifi.Cond), ifi); is {
+				tests = append(tests, b)
+			}
+		}
+	}
+	for i, s := range sinks {
+		ok := false
+		for _, t := range tests {
+			if t.Dominates(s.Instr.Block()) {
+				ok = true
+			}
+		}
+		c.Check(ok, rule, fmt.Sprintf("%s:%s#%d<-decides:%s", fnName(fn), sinkName, i, g.Name), c.instrPos(s.Instr), "case split dominates the sink", fmt.Sprintf("%s is reachable without the test %q having been made", sinkName, g.Name))
+	}
+}
+
+// gEnclosingBypass: an If one of whose arms contains a call matching cs; taking the *other* arm is
+// the passing outcome ("the check is skipped by design on that arm").
+func gEnclosingBypass(name string, cs CallSpec) Guard {
+	return Guard{Name: name, Match: func(_ Cond, ifi *ssa.If) (bool, bool) {
+		b := ifi.Block()
+		has := func(blk *ssa.BasicBlock) bool {
+			for _, in := range blk.Instrs {
+				if ci, ok := in.(ssa.CallInstruction); ok && cs.matches(ci) {
+					return true
+				}
+			}
+			return false
+		}
+		if has(b.Succs[0]) && !has(b.Succs[1]) {
+			return true, false
+		}
+		if has(b.Succs[1]) && !has(b.Succs[0]) {
+			return true, true
+		}
+		return false, false
+	}}
+}
